@@ -36,6 +36,8 @@ MemberMatches(m, v) ==
 
 TarClauses(e) ==
   (IF e.writeErr THEN {"writeTarFailed"} ELSE {})
+  \* a write error of the destination (at any offset, the end-of-archive blocks included) is reported, not swallowed
+  \cup (IF "writeErrorsSwallowedAt" \in DOMAIN e /\ e.writeErrorsSwallowedAt # <<>> THEN {"writeErrorSwallowed"} ELSE {})
   \cup (IF e.eofClean /\ e.rawWalkOK THEN {} ELSE {"archiveNotWellFormed"})
   \cup (IF Len(e.members) = Len(e.view) THEN {} ELSE {"oneMemberPerEntry"})
   \cup (IF Len(e.members) = Len(e.view) /\ \A i \in DOMAIN e.view : MemberMatches(e.members[i], e.view[i])
